@@ -275,7 +275,11 @@ def changesetLine (st : CState) (line : String) : CState × List String :=
       let mon (st : CState) (why : String) : CState × List String :=
         if st.monDead then (st, [])
         else ({ st with monDead := true, mons := st.mons + 1 },
-              [s!"MON C16 case={st.caseId} line={st.lineNo} {why} op=[{l}] impl=[{r}]"])
+              [s!"MON C16 case={st.caseId} line={st.lineNo} {why} op=[{l}] impl=[{r}]"] ++
+              -- an amount added to a change set is a component value in the sense of C08: leaked / destroyed twice
+              (if why.startsWith "amount-neither-yielded-nor-destroyed" || why.startsWith "amount-destroyed-unexpectedly-or-twice" then
+                [s!"MON C08 case={st.caseId} line={st.lineNo} C08 change set: {why} op=[{l}] impl=[{r}]"]
+               else []))
       -- model result vs implementation: result tokens and destroyed payloads in order
       let cmp (st : CState) (m' : ChangeSet) (mres : List String) (md : List Amount) : CState × List String :=
         if st.diverged then (st, [])
